@@ -108,6 +108,9 @@ def term_from_model(h, rng):
             add_fault(last, e["ctl"], e["call"], e["nth"], rng.choice(API_ERRS))
         elif a == "QRec":
             steps.append({"a": "QRec", "pod": e["pod"]})
+        elif a == "Restart" and e.get("mid") and steps[-1]["a"] in ("LcRec", "NodeRec") and not steps[-1].get("faults"):
+            # the model restarted inside a reconcile: the process dies before one of its calls
+            steps[-1]["crashAt"] = rng.randint(1, 8)
         elif a in ("DeleteClaim", "DeleteNode", "InstanceGone", "Restart"):
             steps.append({"a": a})
         elif a == "InstanceVanishes":     # the node controller notices the dead kubelet at once or (1 in 4) not before the end
@@ -213,6 +216,11 @@ def term_systematic(tier, rng):
             steps = copy.deepcopy(path)
             steps.insert(i + 1, {"a": "Restart"})
             behs.append({"cfg": cfg, "steps": pre + steps + SETTLE, "tag": "restart:%s:%d" % (name, i)})
+            # the process dies right before the k-th API call of this reconcile (no error handling runs), then restarts
+            for k in ((rng.randint(1, 8),) if tier == "quick" else range(1, 9)):
+                steps = copy.deepcopy(path)
+                steps[i]["crashAt"] = k
+                behs.append({"cfg": cfg, "steps": pre + steps + SETTLE, "tag": "crash:%s:%d@%d" % (name, i, k)})
             # this reconcile runs on a lagging informer copy (the object as of the previous reconcile of that controller)
             steps = copy.deepcopy(path)
             steps[i]["stale"] = 1
